@@ -401,7 +401,31 @@ def aspath_roundtrip(tier, seed):
                     continue
                 if got != want and len(fails) < 5:
                     fails.append({'what': f'an AS path does not survive encode/decode on a {kind} session: decoded {got}', 'input': inp})
-    return {'evaluations': evals, 'distinct_nontrivial': evals, 'bound': f'all AS paths of 1..{maxseg} segments (SEQUENCE / SET, 1-2 AS numbers from {pool}; 3-segment paths sampled 1 in 7) x 4-byte and 2-byte sessions', 'rule': 'one case = (path, session)', 'samples': [{'path': [['SEQUENCE', [65536, 1]], ['SET', [1]]]}], 'failures': fails}
+    # segments at and beyond the 255 AS numbers one segment can hold (RFC 4271 4.3: one octet of count): a longer one is
+    # sent as consecutive segments of the same type; read back, the same AS numbers in the same order, none lost
+    for typ in (SEQUENCE, SET):
+        for ln in (254, 255, 256, 257, 510, 511, 512):
+            for big_at in (None, 0, 254, 255, 256, ln - 1):
+                vals = [((i * 7) % 64000) + 1 for i in range(ln)]
+                if big_at is not None and big_at < ln:
+                    vals[big_at] = 4200000001
+                path = ASPath.make_aspath([typ([ASN(v) for v in vals])], asn4=True)
+                for kind, neg in sessions.items():
+                    evals += 1
+                    inp = {'session': kind, 'path': [[typ.__name__, f'{ln} AS numbers, 4-byte AS at {big_at}']], 'long': [typ.__name__, ln, big_at]}
+                    try:
+                        b = bytes(path.pack_attribute(neg))
+                        a2 = AttributeCollection.unpack(memoryview(b), neg)
+                        segs2 = a2[Attribute.CODE.AS_PATH].aspath
+                        got = [int(v) for s_ in segs2 for v in s_]
+                        types = {type(s_).__name__ for s_ in segs2}
+                    except Exception as e:  # noqa
+                        fails.append({'what': f'AS path round trip raised {type(e).__name__}: {str(e)[:100]}', 'input': inp})
+                        continue
+                    if (got != vals or types != {typ.__name__}) and len(fails) < 5:
+                        lost = [v for v in vals if v not in got][:3]
+                        fails.append({'what': f'a {typ.__name__} of {ln} AS numbers does not survive encode/decode on a {kind} session: {len(got)} come back' + (f', lost {lost}' if lost else ''), 'input': inp})
+    return {'evaluations': evals, 'distinct_nontrivial': evals, 'bound': f'all AS paths of 1..{maxseg} segments (SEQUENCE / SET, 1-2 AS numbers from {pool}; 3-segment paths sampled 1 in 7) x 4-byte and 2-byte sessions; one segment of 254..257 and 510..512 AS numbers with a 4-byte AS at the split points', 'rule': 'one case = (path, session)', 'samples': [{'path': [['SEQUENCE', [65536, 1]], ['SET', [1]]]}], 'failures': fails}
 
 
 @replayer('C15', 'aspath-roundtrip')
@@ -430,3 +454,95 @@ def _replay_size(f):
 
     m = f['input']['mask']
     return CIDR.size(m) == ((m + 7) // 8 if 0 <= m <= 128 else 0)
+
+
+# ---------------------------------------------------------------------------------------------------------------------
+# canonical bytes at the boundaries the QA corpus does not hold: label stacks (RFC 3107 withdraw label, next-hop
+# convention, one and two labels, with and without a route distinguisher) and RTC prefixes of every legal length
+# (RFC 4684 4: 0, or 32..96 bits), each followed by a second NLRI: decode both, the first re-encodes to its own bytes
+# and the second starts where the first ends.
+def _wire_case(afi, safi, action, first, second, what):
+    from exabgp.bgp.message.update.nlri import NLRI
+    from exabgp.bgp.message.action import Action
+
+    nb, neg = c13.session()
+    inp = {'family': f'{int(afi)}/{int(safi)}', 'action': action, 'first': first.hex(), 'second': second.hex(), 'shape': what}
+    act = Action.WITHDRAW if action == 'withdraw' else Action.ANNOUNCE
+    try:
+        n1, left = NLRI.unpack_nlri(afi, safi, memoryview(first + second), act, False, neg)
+    except Exception as e:  # noqa
+        return {'what': f'canonical NLRI bytes are not decoded ({what}): {type(e).__name__}: {str(e)[:100]}', 'input': inp}
+    if bytes(left) != second:
+        return {'what': f'the NLRI after this one does not start where this one ends ({what}): {len(left)} bytes left, {len(second)} expected', 'input': inp, 'decoded': str(n1)[:100]}
+    try:
+        b = bytes(n1.pack_nlri(neg))
+    except Exception as e:  # noqa
+        return {'what': f'a decoded NLRI cannot be re-encoded ({what}): {type(e).__name__}: {str(e)[:100]}', 'input': inp}
+    if b != first:
+        return {'what': f're-encoding what was decoded from canonical bytes gives other bytes ({what}): {b.hex()}', 'input': inp}
+    try:
+        n2, _ = NLRI.unpack_nlri(afi, safi, memoryview(first), act, False, neg)
+        if str(n1) != str(n2) or n1.json() != n2.json() or not (n1 == n2) or hash(n1) != hash(n2) or n1.index() != n2.index():
+            return {'what': f'the same bytes decoded twice differ in rendering, equality, hash or index ({what})', 'input': inp}
+    except Exception as e:  # noqa
+        return {'what': f'decoding the first NLRI alone fails although it decodes in front of another ({what}): {type(e).__name__}: {str(e)[:100]}', 'input': inp}
+    return None
+
+
+def _wire_cases():
+    from exabgp.protocol.family import AFI, SAFI
+
+    out = []
+    rd = bytes.fromhex('0000fde800000001')
+    pfx = bytes([10, 0, 0])
+    stacks = [
+        ('withdraw label 0x800000', 'withdraw', [bytes.fromhex('800000')]),
+        ('next-hop convention 0x000000', 'announce', [bytes.fromhex('000000')]),
+        ('one label, bottom of stack', 'announce', [bytes.fromhex('000641')]),
+        ('one label, bottom of stack, withdrawn', 'withdraw', [bytes.fromhex('000641')]),
+        ('two labels', 'announce', [bytes.fromhex('000640'), bytes.fromhex('000651')]),
+        ('three labels', 'announce', [bytes.fromhex('000640'), bytes.fromhex('000650'), bytes.fromhex('000661')]),
+        ('label 1048575', 'announce', [bytes.fromhex('fffff1')]),
+    ]
+    for what, action, labels in stacks:
+        lab = b''.join(labels)
+        first = bytes([24 * len(labels) + 24]) + lab + pfx
+        out.append((AFI.ipv4, SAFI.nlri_mpls, action, first, bytes([48]) + bytes.fromhex('000651') + bytes([10, 1, 0]), 'labelled unicast, ' + what))
+        first = bytes([24 * len(labels) + 64 + 24]) + lab + rd + pfx
+        out.append((AFI.ipv4, SAFI.mpls_vpn, action, first, bytes([112]) + bytes.fromhex('000651') + rd + bytes([10, 1, 0]), 'mpls-vpn, ' + what))
+    full = bytes([96]) + bytes.fromhex('0000fde9') + bytes.fromhex('0002fde900000001')
+    for bits in [0] + list(range(32, 97)):
+        body = (bytes.fromhex('0000fde8') + bytes.fromhex('0002fde800000064'))[: (bits + 7) // 8]
+        if bits % 8:
+            body = body[:-1] + bytes([body[-1] & (0xFF << (8 - bits % 8)) & 0xFF])
+        out.append((AFI.ipv4, SAFI.rtc, 'announce', bytes([bits]) + body, full, f'RTC prefix of {bits} bits'))
+    return out
+
+
+@bounded('C15', 'boundary-wire-forms')
+def boundary_wire_forms(tier, seed):
+    fails, evals = [], 0
+    for afi, safi, action, first, second, what in _wire_cases():
+        evals += 1
+        f = _wire_case(afi, safi, action, first, second, what)
+        if f:
+            fails.append(f)
+    return {'evaluations': evals, 'distinct_nontrivial': evals, 'exhaustive': True, 'bound': '7 label stack shapes x (labelled unicast, mpls-vpn) and every legal RTC prefix length (0, 32..96), each followed by a second NLRI of the family: framing, byte-identical re-encoding, same rendering / equality / hash / index when decoded twice', 'rule': 'one case = (family, first NLRI bytes, following NLRI)', 'samples': [{'family': '1/4', 'first': '308000000a0000'}], 'failures': fails}
+
+
+@replayer('C15', 'boundary-wire-forms')
+def _replay_wire(f):
+    from exabgp.protocol.family import AFI, SAFI
+
+    i = f['input']
+    a, s = i['family'].split('/')
+    return _wire_case(AFI.from_int(int(a)), SAFI.from_int(int(s)), i['action'], bytes.fromhex(i['first']), bytes.fromhex(i['second']), i['shape']) is None
+
+
+@region('C15-rtc-prefix-lengths')
+def rtc_prefix_region(failure):
+    """recorded defect: RTC NLRI whose prefix length is 32..95 bits (RFC 4684 4 allows any of them; ExaBGP documents that
+    only the wildcard and the full 96-bit form are implemented, but its decoder accepts the others and reads 13 octets
+    regardless).  Only that shape."""
+    i = failure.get('input', {})
+    return i.get('family') == '1/132' and i.get('shape', '').startswith('RTC prefix of ') and 32 <= int(i['shape'].split()[3]) <= 95
